@@ -33,6 +33,7 @@ structure PropOK (κ : Nat → String) (s : State) (n : Nat) (p : PropRef) : Pro
   len : p.arr.idx.length = n
   key : κ p.arr.buf = p.key
   atype : p.key = "atype" → AtypeOK s p.arr
+  nodup : p.arr.idx.Nodup
 
 structure InvK (κ : Nat → String) (s : State) : Prop where
   heap : ∀ b ∈ s.heap, BufOK b
@@ -161,7 +162,7 @@ theorem buf_set (s : State) (b c : Nat) (x : Buf) :
 /-- transport of `PropOK` to a later state: only the `atype` clause depends on buffer contents. -/
 theorem PropOK.transport {κ κ' : Nat → String} {s s' : State} {n : Nat} {p : PropRef} (h : PropOK κ s n p)
     (hext : Ext κ s κ' s') (hat : p.key = "atype" → AtypeOK s' p.arr) : PropOK κ' s' n p :=
-  ⟨h.valid.mono hext.le, h.len, (hext.agree _ h.valid.1).trans h.key, hat⟩
+  ⟨h.valid.mono hext.le, h.len, (hext.agree _ h.valid.1).trans h.key, hat, h.nodup⟩
 
 /-- the buffers below `s.heap.length` are literally the same in `s'`. -/
 def SameBufs (s s' : State) : Prop := ∀ b, b < s.heap.length → s'.buf b = s.buf b
